@@ -993,6 +993,8 @@ def oracle_C11(t):
                         continue
                     if x["op"] == "save" and x.get("origin") == "other" and nonexcl_login:
                         continue  # LogIn drops the error of its own preliminary LogOut; the later saves supersede it
+                    if x["op"] == "delete":
+                        continue  # the delayed clean-up of a replaced ID has nowhere to report to; Destroy and Start report theirs
                     out.append(F(i, "every call of the request returned success although the store failed (%s %s)" % (x["op"], kt(x["key"]))))
                     break
             if o["res"] == "sess" and kt(o["start"]["key"]) in t.draws(i) and not (st.get("script")):
